@@ -723,6 +723,12 @@ func execC15Conc(c c15Case, r *oracle.Result) (*oracle.Result, string) {
 							// a read error is "absent" for this property
 							ev.found = false
 						}
+					case "open":
+						if !c.Mem {
+							if _, err := c15Open(dir, c.Enc); err != nil {
+								ev.bad = "opening another handle on the directory failed: " + err.Error()
+							}
+						}
 					case "delete":
 						switch err := conn.Delete(k); {
 						case err == nil:
@@ -797,7 +803,7 @@ func execC15Conc(c c15Case, r *oracle.Result) (*oracle.Result, string) {
 		for ki := range keys {
 			var ops []porcupine.Operation
 			for i, ev := range events {
-				if ev.key != ki {
+				if ev.key != ki || ev.op == "open" {
 					continue
 				}
 				ops = append(ops, porcupine.Operation{ClientId: i, Input: in{ev.op, ev.val}, Call: ev.call, Output: out{ev.val, ev.found, ev.del}, Return: ev.ret})
@@ -972,7 +978,9 @@ func TestC15Conc(t *testing.T) {
 			var th []c15Op
 			for oi := 0; oi < n; oi++ {
 				lbl := fmt.Sprintf("t%d-%d", ti, oi)
-				op := c15Op{Op: []string{"set", "get", "delete"}[gen.Weighted(rt, lbl+"-op", 42, 40, 18)], Key: gen.Weighted(rt, lbl+"-key", 80, 20)}
+				// "open": another handle is opened on the directory while the others are at work
+				// (a second process starting up, the maintenance API serving a request)
+				op := c15Op{Op: []string{"set", "get", "delete", "open"}[gen.Weighted(rt, lbl+"-op", 40, 38, 16, 6)], Key: gen.Weighted(rt, lbl+"-key", 80, 20)}
 				if op.Op == "set" {
 					op.Len = gen.Pick(rt, lbl+"-len", 0, 10, 4096, 65536, 300000, 300000)
 				}
